@@ -123,6 +123,15 @@ Theorem C04_source_decorators_are_model : forall (rg : RG) (rp : RP) sp k s,
 Proof. exact gen_run_conditional_decorators_is_model. Qed.
 Print Assumptions C04_source_decorators_are_model.
 
+(** in-arguments are set before anything else of the step runs and removed only after the step
+    completed normally — [Step.run_step] read from the source *)
+Theorem C04_source_run_step_is_model : forall (rg : RG) (rp : RP) sp s,
+  gen_step_run_step sp (fun s => (OOk, set_step_input sp s)) (fun s => (OOk, unset_step_input sp s))
+    (fun w => while_loop rg rp w sp) (foreach_or_cond rg rp sp no_counters) s
+  = run_step rg rp sp s.
+Proof. exact gen_step_run_step_is_model. Qed.
+Print Assumptions C04_source_run_step_is_model.
+
 (** * Non-vacuity: run expression changes between foreach iterations *)
 Definition lib4 : library :=
   [("main", [("steps", Some [
